@@ -396,7 +396,20 @@ impl Watchpoint {
         target.last_value = var;
 
         let mut hw_brkpt = HardwareBreakpoint::new(address, size, condition);
-        let state = hw_brkpt.enable(debugger.debugee.tracee_ctl())?;
+        let state = match hw_brkpt.enable(debugger.debugee.tracee_ctl()) {
+            Ok(state) => state,
+            Err(e) => {
+                // the watchpoint does not come into being (no free debug register):
+                // neither must the companion breakpoint that was armed for it
+                if let Some(companion) = end_of_scope_brkpt {
+                    let wp_num = GLOBAL_WP_COUNTER.load(Ordering::Relaxed);
+                    _ = debugger
+                        .breakpoints
+                        .decrease_companion_rc(companion, wp_num);
+                }
+                return Err(e);
+            }
+        };
 
         let this = Self {
             number: GLOBAL_WP_COUNTER.fetch_add(1, Ordering::Relaxed),
